@@ -1,8 +1,9 @@
 CONSTANTS
-  NFonts = 2
-  Family = "pairs"
-  BugSet = {"none"}
-  IdfSet = {FALSE}
+  NFontsSet = {2, 3}
+  Family = "quick"
+  BugSet = {"none", "no-rename", "no-fresh-loop", "later-wins", "dup-reversed", "maxp-first", "ctx-not-offset", "feature-first-only", "compact-off-by-one"}
+  IdfSet = {FALSE, TRUE}
+  ShapeK = 1
   IgnSet = {{3}}
 INIT Init
 NEXT Next
@@ -12,6 +13,9 @@ INVARIANT Inv_UniqueNames
 INVARIANT Inv_Totals
 INVARIANT Inv_DuplicateRule
 INVARIANT Inv_DisjointShaping
+INVARIANT Inv_OrderRule
+INVARIANT Inv_IdentifyOnlySame
+INVARIANT NegReport
 INVARIANT Witness
 INVARIANT Witness2
 CHECK_DEADLOCK FALSE
